@@ -1304,6 +1304,10 @@ class Pool:
                     if not job.ready():
                         exitcode = exitcodes.get(acked_by_gone) or 0
                         proc = cleaned.get(acked_by_gone)
+                        if not job._worker_lost:
+                            # multi-part handles (imap) deliver the failure
+                            # on the parts this worker had accepted.
+                            job._lost_pid = acked_by_gone
                         if proc and getattr(proc, '_job_terminated', False):
                             job._set_terminated(exitcode)
                         else:
@@ -2037,6 +2041,7 @@ class MapResult(ApplyResult):
 
 class IMapIterator:
     _worker_lost = None
+    _lost_pid = None
     _write_to = None
     _scheduled_for = None
 
@@ -2050,6 +2055,7 @@ class IMapIterator:
         self._ready = False
         self._unsorted = {}
         self._worker_pids = {}
+        self._failed_parts = set()
         self._lost_worker_timeout = lost_worker_timeout
         cache[self._job] = self
 
@@ -2082,21 +2088,40 @@ class IMapIterator:
 
     def _set(self, i, obj):
         with self._cond:
-            self._worker_pids.pop(i, None)
-            if self._index == i:
+            if i is None:
+                # a failure made by the pool (worker lost, terminated): it
+                # belongs to the parts accepted by the worker that is gone,
+                # the other parts go on.
+                pid, self._lost_pid, self._worker_lost = \
+                    self._lost_pid, None, None
+                parts = sorted(
+                    part for part, owner in self._worker_pids.items()
+                    if owner == pid
+                )
+                self._failed_parts.update(parts)
+            elif i in self._failed_parts:
+                # late result of a part already reported as failed.
+                return
+            else:
+                parts = (i,)
+            for part in parts:
+                self._worker_pids.pop(part, None)
+                self._store(part, obj)
+            if self._index == self._length and not self._ready:
+                self._ready = True
+                self._cache.pop(self._job, None)
+
+    def _store(self, i, obj):
+        if self._index == i:
+            self._items.append(obj)
+            self._index += 1
+            while self._index in self._unsorted:
+                obj = self._unsorted.pop(self._index)
                 self._items.append(obj)
                 self._index += 1
-                while self._index in self._unsorted:
-                    obj = self._unsorted.pop(self._index)
-                    self._items.append(obj)
-                    self._index += 1
-                self._cond.notify()
-            else:
-                self._unsorted[i] = obj
-
-            if self._index == self._length:
-                self._ready = True
-                del self._cache[self._job]
+            self._cond.notify()
+        else:
+            self._unsorted[i] = obj
 
     def _set_length(self, length):
         with self._cond:
@@ -2131,15 +2156,10 @@ class IMapIterator:
 
 class IMapUnorderedIterator(IMapIterator):
 
-    def _set(self, i, obj):
-        with self._cond:
-            self._worker_pids.pop(i, None)
-            self._items.append(obj)
-            self._index += 1
-            self._cond.notify()
-            if self._index == self._length:
-                self._ready = True
-                del self._cache[self._job]
+    def _store(self, i, obj):
+        self._items.append(obj)
+        self._index += 1
+        self._cond.notify()
 
 #
 #
